@@ -33,7 +33,9 @@ LEVEL = "exploration"
 RULE = ("Hypothesis @given per message class (36 classes, pav/gens.py, fields over their protocol domains); a case is "
         "three messages of one class sent through the real send path and read back through the real receive path; "
         "non-trivial = some message has >= 2 records, or a non-ASCII string, or a non-empty variable-length part, "
-        "or an explicit header; distinct by the bytes written")
+        "or an explicit header; distinct by the bytes written."
+        " Every second case runs against a slow peer: the transport keeps the objects it was given by reference until they are "
+        "flushed (as a selector transport does), so a frame buffer that is re-used for the next frame shows on the wire.")
 ASSUMPTIONS = [
     "fake transport mirrors asyncio selector transport semantics (pav/fakenet.py)",
     "values outside the protocol domain (over-long names, AT4 timer messages naming a subset of ACs, versions=[]) are not generated",
